@@ -806,3 +806,47 @@ impl<Ctx: OptCtx> LoweredToLir<'_, Ctx> {
         crate::verif_hooks::c05::mem_fns(&self.ir)
     }
 }
+
+#[cfg(feature = "verif-hooks")]
+impl<Ctx: OptCtx> TypeChecked<'_, Ctx> {
+    /// Verification hook (C03): `verif_c03_dump_with_eliminated` plus the
+    /// printed LIR that the next stage makes of the very same MIR. Two
+    /// lowerings of one script may name the blocks of a `match`
+    /// differently, so the blocks of the MIR dump and of the LIR can only
+    /// be related when they come from the same one.
+    #[allow(clippy::type_complexity)]
+    pub fn verif_c03_dump_with_eliminated_and_lir(
+        &self,
+    ) -> (
+        Vec<crate::verif_hooks::c03::ItemDump>,
+        Vec<(String, Vec<(String, String)>)>,
+        String,
+    ) {
+        let mut type_info = self.type_info.clone();
+        let mut label_store = LabelStore::default();
+        let before = mir::verif_lower_to_mir_without_dce(
+            &self.module_tree,
+            &self.runtime.rt,
+            &mut type_info,
+            &mut label_store,
+            &self.order,
+        );
+        let mut after = before.clone();
+        after.eliminate_dead_code();
+        let gone = crate::verif_hooks::c03::eliminated_definitions_of(
+            &before,
+            &after,
+            &type_info,
+            &label_store,
+        );
+        let mut lowered = LoweredToMir {
+            ir: after,
+            runtime: self.runtime,
+            label_store,
+            type_info,
+        };
+        let dump = lowered.verif_c03_dump();
+        let lir = lowered.lower_to_lir().verif_text();
+        (dump, gone, lir)
+    }
+}
